@@ -638,7 +638,7 @@ func writeEvidence(prop, tier string, seed uint64, aggs []*profAgg, nviol int, k
 			"faults_fired_total":     faultTotal,
 			"profiles":               pe,
 			"known_findings_matched": kh,
-			"components_real":        []string{"package rux: router, matcher, dispatch, Context, handler-chain cursor, responseWriter wrapper, LRU route cache", "container/list", "regexp", "sync.RWMutex", "net/http helpers called by rux (http.Error, NotFound, Redirect)"},
+			"components_real":        []string{"package rux: router, matcher, dispatch, Context, handler-chain cursor, responseWriter wrapper, LRU route cache (in the profiles marked statement_level_preemption: the same sources, rebuilt from a scratch copy with a scheduler yield woven before every statement)", "container/list", "regexp", "sync.RWMutex", "net/http helpers called by rux (http.Error, NotFound, Redirect)"},
 			"components_stubbed":     []string{"net/http server and its goroutines (simulated clients)", "underlying http.ResponseWriter (recording, fault-injecting SimWriter)", "user handlers (scripted harness handlers)", "sync.Pool choice (simulated free list behind the verif pool hook)", "map iteration order at Resource and findAllowedMethods (seeded permutation)"},
 			"exhaustive":             false,
 		},
